@@ -37,6 +37,10 @@ S_C20B = ('strict_sort=True with permit_truncated: an incomplete volume that is 
           'different echo/type/dynamic labels (silent)')
 
 
+S_C20C = ('permit_truncated with NO complete volume among the records (n_vols = 0): the shape falls back to 3-D and the '
+          'first n_slices sorted records - slices of incomplete volumes - are returned, with a warning only')
+
+
 # --------------------------------------------------------------------------- fixtures
 class Fixture:
     pass
@@ -520,7 +524,11 @@ def predicates(case, o, info, f, ref):
         for i in info['present']:
             have.setdefault(f.tv[i], set()).add(f.slices[i])
         ncomplete = sum(1 for s in have.values() if s == set(range(1, f.smax + 1)))
-        if ncomplete >= 1:
+        if ncomplete == 0:
+            if o['payload']:
+                out.append(('truncated_complete_only', f"no recorded volume is complete but {len(o['payload'])} slices "
+                            'are returned', 'S-C20c'))
+        else:
             m = pred_complete_only(o, f, info['present'])
             if m:
                 known = None
@@ -556,6 +564,11 @@ def run(chk: Check):
     chk.trusted += ['oracles of C20: np.lexsort (stable, last key primary), NumPy float64 / and * (Section variables '
                     'fone fdiv fmul), NumPy fancy indexing rec[..., idx] and F-order reshape, the PAR text parser '
                     '(parse_PAR_header, used to derive the model inputs)']
+    chk.extra['unproved_statements'] = [
+        'C20_strict_label_volumes (positive part): for strict sorting, when no volume is truncated or only the '
+        'last volume in key order is, every output volume consists of records agreeing on all non-slice keys with '
+        'slices 1..max in order - not proved in Coq (its unrestricted form is refuted: C20_strict_label_volumes_refuted '
+        '= S-C20b); checked by the direct predicate truncated_complete_only on every case']
     chk.build()
     chk.run_probes()
     if not chk.model_ok:
@@ -658,7 +671,7 @@ def run(chk: Check):
         genuine = [x for x in fails if x[2] is None]
         for name, msg, known in fails:
             if known:
-                chk.known(known, S_C20B)
+                chk.known(known, S_C20B if known == 'S-C20b' else S_C20C)
                 chk.tagc('known:' + known)
         for name, msg, _ in genuine[:1]:
             chk.violation('property_violation', case=describe(case, info), predicate=f'{name}: {msg}',
